@@ -475,9 +475,9 @@ fn main() {
     let a = args();
     let mut g = SplitMix64::new(a.seed ^ 0xC08);
     match a.mode.as_str() {
-        "traj" => traj(&mut g, if a.thorough { 8000 } else { 1200 }),
+        "traj" => traj(&mut g, if a.thorough { 40000 } else { 4000 }),
         "prob" => {
-            let want = if a.thorough { 500 } else { 60 };
+            let want = if a.thorough { 4000 } else { 400 };
             let mut done = 0;
             let mut tries = 0;
             while done < want && tries < want * 20 {
